@@ -142,6 +142,16 @@ def generate(rng: random.Random, tier: str):
                     continue
 
 
+    # positions beyond the end (appended stream): resolve must refuse them (ValueError), like the model's resolve
+    for fam in gen.FAMILY:
+        g = gen.DocGen(gen.family(fam), rng)
+        for _ in range(3 if quick else 30):
+            doc = g.doc(rng.randint(1, 3))
+            n = doc.content.size
+            for p in (n + 1, n + 2, n + rng.randint(3, 40)):
+                yield resolve_case(fam, doc, p)
+
+
 def rebuild(desc):
     fam = desc["family"]
     doc = Node.from_json(gen.family(fam), desc["doc"])
